@@ -656,6 +656,8 @@ pub struct ReplayFile {
     pub stage: String,
     pub input: Input,
     pub message: String,
+    /// how the input rendered when the file was recorded (tape inputs only mean something together with the generator that decodes them)
+    pub rendered: Option<String>,
 }
 
 pub fn read_replay(path: &Path) -> Result<ReplayFile, String> {
@@ -666,6 +668,7 @@ pub fn read_replay(path: &Path) -> Result<ReplayFile, String> {
         stage: v.get("stage").and_then(|x| x.as_str()).unwrap_or("").to_string(),
         input: v.get("input").and_then(Input::from_json).ok_or_else(|| format!("no input in {}", path.display()))?,
         message: v.get("message").and_then(|x| x.as_str()).unwrap_or("").to_string(),
+        rendered: v.get("rendered").and_then(|x| x.as_str()).map(|x| x.to_string()),
     })
 }
 
